@@ -83,6 +83,31 @@ CHECKS = [
           "contract. Values are plain python values (not Quantity instances) except for the quantity parameter. Strings in "
           "sequences/dict keys are modelled by ids (z3 5.1 is unsound on sequences of strings).",
   "technique": "deductive verification: per-class validity invariant + strict frames, closed-world dispatch, lemma program for the model round trip; z3 + cvc5"},
+ {"property_id": "C16",
+  "text": "Table invariant TInv as ground obligations over the live module data, one per entry, exhaustive: every _mul entry has "
+          "sig(C)=sig(A)+sig(B), every _div entry sig(C)=sig(A)-sig(B), every class's sisig() equals its _sidict over SIUNITS "
+          "(41 classes, all entries incl. the ones filled in by the module-level loop). The operator code itself "
+          "(Quantity.__mul__/__truediv__/..., SI arithmetic, as_quantity, SI string round trip) is NOT yet verified symbolically: "
+          "a BOUNDED stand-in runs the real * and / on every one of the 41x41 ordered class pairs (one value pair) and checks value, "
+          "signature and named-vs-generic result; it is labelled bounded and not counted as proved.",
+  "design_ref": "DESIGN.md section 6 C16",
+  "category": "proof",
+  "note": "Proof-level only for the finite data invariants (decided by exhaustive evaluation of the dumped live tables). Operator "
+          "semantics: bounded (1681 pairs x 1 value pair). Not covered: mixed-type add/sub/order refusal, as_quantity, SI string "
+          "round trip (the reflective class-object code is outside the current engine subset).",
+  "technique": "ground obligations over the live conversion tables (exhaustive evaluation) + bounded native stand-in for the operators"},
+ {"property_id": "C17",
+  "text": "Data invariant UInv as ground obligations over the live module data, exhaustive over 41 classes x all declared units: base "
+          "unit declared with factor exactly 1; every factor a finite non-zero number; every unit has a description; every display "
+          "unit is a str and keys are declared units; alias spellings (same display string / same description) share one factor; "
+          "compound units a/b agree with the component units of the quantities given by the SI signature (unparsable names are "
+          "listed as not checked); every name in __all__ exists.",
+  "design_ref": "DESIGN.md section 6 C17",
+  "category": "proof",
+  "note": "Proof-level for the finite data invariants (exhaustive evaluation of the dumped live tables). NOT covered yet: the "
+          "constructor/as_unit/displayvalue/comparison code of Quantity (reflective class-object code outside the current engine "
+          "subset) - 'si = value*factor', 'as_unit keeps si bit-identical' are not decided.",
+  "technique": "ground obligations over the live unit tables (exhaustive evaluation)"},
 ]
 _claimed = {c["property_id"] for c in CHECKS}
 NOT_APPLICABLE = [
